@@ -47,7 +47,7 @@ fn under_inverse(
     }
     let mut hasher = RapidHasher::new(1);
     for node in input {
-        node.hash_with_span(&mut hasher);
+        node.hash_deep(Some(asm), &mut hasher);
     }
     let hash = hasher.finish();
     if let Some(cached) =
